@@ -294,9 +294,10 @@ func (n *Name) Substitute(old, new Name) {
 			n.Ident = new.Ident
 			n.ChannelID = new.ChannelID
 		}
-	} else if !n.Initialized() && !old.Initialized() && n.Ident == old.Ident {
+	} else if !n.Initialized() && !old.Initialized() && !n.IsSelf && n.Ident == old.Ident {
 		// Names are compared by identifier only while both are still uninitialized: an initialized
-		// channel must never capture a (bound or self) name that merely shares its identifier
+		// channel must never capture a (bound or self) name that merely shares its identifier.
+		// A reference to self is never substituted: its identifier is only informative
 		n.Ident = new.Ident
 		n.Channel = new.Channel
 		n.ChannelID = new.ChannelID
